@@ -44,7 +44,7 @@ def _worker(modname, tier, vseed, phase_idx, phase, lo, hi):
         signal.alarm(RUN_ALARM_S)
         try:
             with core.quiet_stdout():
-                check.run_one(sim, params)
+                check.run_one(sim, dict(params, _idx=idx))
         except Violation as v:
             signal.alarm(0)
             res["violations"].append({
@@ -155,6 +155,7 @@ def run_check(modname, tier="quick", vseed=0, workers=None, scale=1.0, wall_limi
             known_hit.append((sig, len(by_sig[sig])))
             continue
         params = dict(phases[first["phase"]].get("params", {}))
+        params["_idx"] = first["idx"]
         params.update(first.get("override") or {})
         v = Violation(*sig.split("|", 1), message=first["message"])
         choices, kinds, minimised = first["trace"], first["kinds"], False
